@@ -35,23 +35,36 @@ def trace_shear(fn):
     d = T.Sym.var("d", 0.01)
     calls = []
 
-    def mk(kind):
-        def g(A, B, jac, clmo):
-            A = [T.Sym.lift(a) for a in A]
-            B = [T.Sym.lift(b) for b in B]
+    # The gradient is left uninterpreted at the deepest stable primitive: `_polynomial_evaluate(jac_H[j], point6, clmo)` with
+    # `jac_H[j]` = dH/dx_j (x = q1 q2 q3 p1 p2 p3).  Whatever helpers the code uses to assemble the evaluation point and to
+    # collect the components (`_eval_dH_dQ`, `_eval_dH_dP`, `_construct_6d_eval_point`, or refactored variants) are traced through.
+    class _JacMark:
+        def __init__(self, j):
+            self.j = j
 
-            def blk(v):
-                ns = [x.args[0] if x.op == "var" else None for x in v]
-                if None in ns or [n[1] for n in ns] != ["0", "1", "2"] or len({n[0] for n in ns}) != 1:
-                    raise ValueError("gradient argument is not one of the blocks Q,P,X,Y: %r" % (ns,))
-                return BLK[ns[0][0]]
-            calls.append((kind, blk(A), blk(B)))
-            j = len(calls) - 1
-            return T.symarray([T.Sym.var("g%d_%d" % (j, i), 0.3 + i + j) for i in range(3)])
-        return g
+    idx = {}
 
-    f = T.retarget(fn, {"_eval_dH_dQ": mk(0), "_eval_dH_dP": mk(1)})
-    f(q, d, None, None)
+    def blk(v):
+        ns = [x.args[0] if x.op == "var" else None for x in v]
+        if None in ns or [n[1] for n in ns] != ["0", "1", "2"] or len({n[0] for n in ns}) != 1:
+            raise ValueError("gradient argument is not one of the blocks Q,P,X,Y: %r" % (ns,))
+        return BLK[ns[0][0]]
+
+    def pe(poly, point, clmo, *a, **k):
+        if not isinstance(poly, _JacMark):
+            raise ValueError("_polynomial_evaluate called on something that is not an entry of jac_H")
+        pt = [T.Sym.lift(x) for x in point]
+        if len(pt) != 6:
+            raise ValueError("evaluation point has %d components" % len(pt))
+        key = (0 if poly.j < 3 else 1, blk(pt[:3]), blk(pt[3:]))
+        if key not in idx:
+            calls.append(key)
+            idx[key] = len(calls) - 1
+        j = idx[key]
+        return T.Sym.var("g%d_%d" % (j, poly.j % 3), 0.3 + poly.j % 3 + j)
+
+    f = T.retarget(fn, {"_polynomial_evaluate": pe})
+    f(q, d, [_JacMark(j) for j in range(6)], None)
     updates = []
     for b, bn in enumerate("QPXY"):
         rows = []
